@@ -2513,9 +2513,10 @@ impl Connection {
         }
         if !was_drained && self.state.is_drained() {
             self.endpoint_events.push_back(EndpointEventInner::Drained);
-            // Close timer may have been started previously, e.g. if we sent a close and got a
-            // stateless reset in response
-            self.timers.stop(Timer::Close);
+            // Timers may have been started previously, e.g. the close timer if we sent a close and
+            // got a stateless reset in response, or the key discard timer for a key update seen
+            // while closing; a drained connection has nothing left to wait for
+            self.close_common();
         }
 
         // Transmit CONNECTION_CLOSE if necessary
